@@ -200,6 +200,12 @@ impl UnkHandler {
         self.entries.len()
     }
 
+    /// Number of unk.def entries per category id.
+    #[cfg(vibrato_verif)]
+    pub fn verif_entries_per_category(&self) -> Vec<usize> {
+        self.offsets.windows(2).map(|w| w[1] - w[0]).collect()
+    }
+
     /// Do NOT make this function public to maintain consistency in
     /// the connection-id mapping among members of `Dictionary`.
     /// The consistency is managed in `Dictionary`.
